@@ -159,7 +159,8 @@ pub open spec fn parsed_fields(fs: Seq<Field>) -> Seq<PField> { Seq::new(fs.len(
 /// ASSUMED (httparse conformance, bounded run only): a well-formed head followed by anything parses
 /// completely when it fits the capacity, is rejected with TooManyHeaders when it does not, and every
 /// strict prefix is Partial while at most `cap` fields have started (TooManyHeaders once field cap+1
-/// has started); a Partial outcome reports only completely received fields.
+/// has started - in particular while the input ends inside or right after the status line, whatever the
+/// capacity); a Partial outcome reports only completely received fields.
 #[verifier::external_body]
 pub proof fn axiom_wellformed_response(h: Head, rest: Seq<u8>, cap: nat)
     requires wf_head(h)
@@ -170,7 +171,7 @@ pub proof fn axiom_wellformed_response(h: Head, rest: Seq<u8>, cap: nat)
 {}
 #[verifier::external_body]
 pub proof fn axiom_wellformed_response_prefix(h: Head, k: int, cap: nat)
-    requires wf_head(h), 0 <= k < render_head(h).len(), h.fields.len() <= cap
+    requires wf_head(h), 0 <= k < render_head(h).len(), h.fields.len() <= cap || k <= render_status_line(h).len()
     ensures
         parse_response(render_head(h).subrange(0, k), cap) matches Outcome::Partial(p)
             && (exists|j: int| 0 <= j <= h.fields.len() && p.fields == #[trigger] parsed_fields(h.fields.subrange(0, j))
@@ -178,4 +179,32 @@ pub proof fn axiom_wellformed_response_prefix(h: Head, k: int, cap: nat)
             && (p.version is Some ==> p.version == Some(h.minor) && k >= 8)
             && (p.code is Some ==> p.code == Some(h.code) && p.version is Some && k >= 12)
             && (p.fields.len() > 0 ==> p.code is Some),
+{}
+
+// ---------------------------------------------------------------------------
+// what is assumed about WELL-FORMED request heads (C20, request parser)
+// ---------------------------------------------------------------------------
+pub struct ReqHead { pub method: Seq<u8>, pub target: Seq<u8>, pub minor: u8, pub fields: Seq<Field> }
+pub uninterp spec fn valid_target(b: Seq<u8>) -> bool;
+pub open spec fn wf_req_head(h: ReqHead) -> bool {
+    &&& is_token(h.method) && h.method.len() > 0 && valid_target(h.target) && h.minor <= 1
+    &&& forall|i: int| 0 <= i < h.fields.len() ==> wf_field(#[trigger] h.fields[i])
+}
+pub open spec fn render_request_line(h: ReqHead) -> Seq<u8> {
+    h.method + seq![32u8] + h.target + seq![32u8, 72u8, 84u8, 84u8, 80u8, 47u8, 49u8, 46u8, digit(h.minor as int), 13u8, 10u8]
+}
+pub open spec fn render_req_head(h: ReqHead) -> Seq<u8> { render_request_line(h) + render_fields(h.fields) + seq![13u8, 10u8] }
+/// ASSUMED (httparse conformance, bounded run only): as for responses
+#[verifier::external_body]
+pub proof fn axiom_wellformed_request(h: ReqHead, rest: Seq<u8>, cap: nat)
+    requires wf_req_head(h)
+    ensures
+        h.fields.len() <= cap ==> parse_request(render_req_head(h) + rest, cap)
+            == Outcome::Complete(render_req_head(h).len(), Parsed { version: Some(h.minor), code: None, method: Some(h.method), fields: parsed_fields(h.fields) }),
+        h.fields.len() > cap ==> parse_request(render_req_head(h) + rest, cap) == Outcome::Err(Error::TooManyHeaders),
+{}
+#[verifier::external_body]
+pub proof fn axiom_wellformed_request_prefix(h: ReqHead, k: int, cap: nat)
+    requires wf_req_head(h), 0 <= k < render_req_head(h).len(), h.fields.len() <= cap
+    ensures parse_request(render_req_head(h).subrange(0, k), cap) is Partial
 {}
